@@ -167,6 +167,7 @@ def _classify_ctor(chk, fb, f, d):
     ok, path = _must_validate(cfg, establishes, validating_calls)
     if ok:
         chk.proved("D2", f.key, "ctor-validates", f.loc(), "every path to the normal exit passes an isCorrect test")
+        _stored_is_validated(chk, fb, f, obj_texts)
     else:
         calls = [render(n) for n in f.calls() if n["callee"]["name"] == "setValue"]
         chk.refuted("D2", f.key, "ctor-validates", f.loc(),
@@ -174,6 +175,38 @@ def _classify_ctor(chk, fb, f, d):
                     "(value_ initialised from %s; %s does not validate when the value equals the stored one within precision/2)" % (
                         render(_init_of(f, VALUE)["expr"]) if _init_of(f, VALUE) else "?", ", ".join(calls) or "no call"),
                     witness={"blocks": path, "input": "Parameter(name, v, c) with v equal to the initialiser of value_ and c rejecting it"})
+
+
+def _stored_is_validated(chk, fb, f, obj_texts):
+    """the value that was tested must be the value that ends up stored: either value_ is initialised from it, or it is
+    handed to setValue while precision_ is still the literal 0 (then setValue's 'unchanged within precision/2' branch means
+    'equal to the stored value')"""
+    cfg = f.cfg
+    tested = set()
+    for n in f.calls():
+        if n["callee"]["name"] == "isCorrect" and "obj" in n and render(f.obj(n)) in obj_texts:
+            tested.add(render(f.args(n)[0]))
+    vi = _init_of(f, VALUE)
+    if vi and render(vi["expr"]) in tested:
+        chk.proved("D2", f.key, "validated-is-stored", f.loc(), "value_ initialised from the tested value")
+        return
+    sets = [n for n in f.calls() if n["callee"]["name"] == "setValue" and render(f.obj(n)) == "this"]
+    ok_calls = [n for n in sets if render(f.args(n)[0]) in tested]
+    if not ok_calls:
+        chk.refuted("D2", f.key, "validated-is-stored", f.loc(), "the constructor tests %s but stores a different expression" % sorted(tested))
+        return
+    pi = _init_of(f, "bpp::Parameter::precision_")
+    pz = pi is not None and strip(pi["expr"])["k"] in ("IntegerLiteral", "FloatingLiteral") and float(strip(pi["expr"])["val"]) == 0.0
+    pw = [n for n in walk(f.body) if any(x[0] == "f" and x[1] == "bpp::Parameter::precision_" for x in e1.writes_in(f, n)) and not kids(n) == []]
+    pw = [n for n in f.calls() if n["callee"]["name"] == "setPrecision"] + [n for n in walk(f.body) if n["k"] in ("BinaryOperator", "CompoundAssignOperator") and render(kids(n)[0]) == "precision_" and n["op"].endswith("=") and n["op"] not in ("==", "!=", "<=", ">=")]
+    early = [w for w in pw if any(e1.before_in_function(cfg, w, c) for c in ok_calls)]
+    if pz and not early:
+        chk.proved("D2", f.key, "validated-is-stored", f.loc(ok_calls[0]), "setValue(%s) runs while precision_ is the literal 0: the no-change branch implies equality with the stored value" % render(f.args(ok_calls[0])[0]))
+    else:
+        chk.refuted("D2", f.key, "validated-is-stored", f.loc(ok_calls[0]),
+                    "setValue(%s) runs with a caller-supplied precision while value_ still holds its placeholder %s: a tested value within precision/2 of the placeholder is discarded and the "
+                    "untested placeholder stays stored" % (render(f.args(ok_calls[0])[0]), render(vi["expr"]) if vi else "?"),
+                    witness={"input": "Parameter(name, v, c, precision) with 0 < |v - placeholder| <= precision/2 and c rejecting the placeholder"})
 
 
 def _must_validate(cfg, establishes, validating_blocks):
